@@ -34,9 +34,17 @@ package consts
 //@   ensures i == DnsResponseOutboundIndex_LogicalOr ==> result == "<OR>"
 //@   ensures i == DnsResponseOutboundIndex_LogicalAnd ==> result == "<AND>"
 
+// the two spellings of an IP version name each other ("4" <-> IpVersion_4, "6" <-> IpVersion_6); anything else
+// panics (assumed unreachable here: the posts speak about normal returns)
 //@ func (IpVersionStr).ToIpVersionType
 //@   vpure
-//@   trusted
+//@   anchorsonly
+//@   ensures v == IpVersionStr_4 ==> result == IpVersion_4
+//@   ensures v == IpVersionStr_6 ==> result == IpVersion_6
+//@   ensures result == IpVersion_4 || result == IpVersion_6
 //@ func (IpVersionType).ToIpVersionStr
 //@   vpure
-//@   trusted
+//@   anchorsonly
+//@   ensures v == IpVersion_4 ==> result == IpVersionStr_4
+//@   ensures v == IpVersion_6 ==> result == IpVersionStr_6
+//@   ensures result == IpVersionStr_4 || result == IpVersionStr_6
